@@ -656,4 +656,98 @@ theorem run_empty {ch : Nat → Nat → Nat} {prm : Params} {capOpt : Option Int
     · simp at h
     · simp at h; exact h.symm
 
+/-! ## Part 3: symmetric graphs — the gain table is exact (`gain_inv`) -/
+
+/-- Total weight of the entries of `row` whose column is `u` (the matrix entry `A[·,u]`; `sprs`
+rows have at most one such entry, the definition does not need that). -/
+def wtRow (row : Row) (u : Nat) : Int := (row.map (fun e => if e.1 = u then e.2 else 0)).sum
+
+/-- The inputs the property quantifies over: a CSR matrix as `sprs` guarantees it (square, column
+indices in range, rows strictly ascending) that is symmetric, without self-loops, with
+non-negative edge weights.  Every clause is decidable. -/
+structure Valid (g : Graph) : Prop where
+  idx : ∀ v < g.length, ∀ e ∈ rowOf g v, e.1 < g.length
+  sorted : ∀ v < g.length, (rowOf g v).Pairwise (fun a b => a.1 < b.1)
+  sym : ∀ u < g.length, ∀ v < g.length, wtRow (rowOf g u) v = wtRow (rowOf g v) u
+  noloop : ∀ v < g.length, ∀ e ∈ rowOf g v, e.1 ≠ v
+  nonneg : ∀ v < g.length, ∀ e ∈ rowOf g v, 0 ≤ e.2
+
+/-- `gain_inv`: the gain table holds the true gain of every free vertex. -/
+def GInv (g : Graph) (st : PassSt) : Prop :=
+  ∀ u x, st.gains.getD u none = some x → x = gainOf g st.part u
+
+theorem partOf_set (p : List Nat) (v x u : Nat) (hv : v < p.length) :
+    partOf (p.set v x) u = if u = v then x else partOf p u := by
+  unfold partOf
+  by_cases h : u = v
+  · subst h; simp [List.getD_eq_getElem?_getD, List.getElem?_set_self hv]
+  · simp [h, List.getD_eq_getElem?_getD, List.getElem?_set_ne (Ne.symm h)]
+
+theorem getD_some_lt {gs : List (Option Int)} {u : Nat} {x : Int}
+    (h : gs.getD u none = some x) : u < gs.length := by
+  apply Classical.byContradiction
+  intro hc
+  simp [List.getD_eq_getElem?_getD, List.getElem?_eq_none (by omega : gs.length ≤ u)] at h
+
+theorem updNbrs_val {mpg : Int} {part : List Nat} {ip : Nat} {row : Row}
+    {gs gs' : List (Option Int)} (h : updNbrs mpg part ip row gs = .ok gs') (u : Nat) (x : Int)
+    (hx : gs.getD u none = some x) :
+    gs'.getD u none = some (x + (if partOf part u = ip then 2 else -2) * wtRow row u) := by
+  induction row generalizing gs x with
+  | nil => simp only [updNbrs, Except.ok.injEq] at h; subst h; rw [hx]; simp [wtRow]
+  | cons e row ih =>
+    obtain ⟨u', w⟩ := e
+    have hw : wtRow ((u', w) :: row) u = (if u' = u then w else 0) + wtRow row u := by
+      simp [wtRow]
+    simp only [updNbrs] at h
+    split at h
+    · next hnone =>
+      have hne : u' ≠ u := by intro e; subst e; rw [hx] at hnone; simp at hnone
+      rw [ih h x hx, hw, if_neg hne]; simp
+    · next og hog =>
+      have key : ∀ ug : Int, ug = og + (if partOf part u' = ip then 2 else -2) * w →
+          (if inRange mpg ug = true then updNbrs mpg part ip row (gs.set u' (some ug))
+            else Except.error Abort.bucketIndex) = Except.ok gs' →
+          gs'.getD u none = some (x + (if partOf part u = ip then 2 else -2) * wtRow ((u', w) :: row) u) := by
+        intro ug hug h
+        split at h
+        · by_cases hne : u' = u
+          · subst hne
+            have hlt : u' < gs.length := getD_some_lt hx
+            have hox : og = x := by rw [hx] at hog; simpa using hog.symm
+            have := ih h ug (by simp [List.getD_eq_getElem?_getD, List.getElem?_set_self hlt])
+            rw [this, hw, hug, hox]
+            simp only [if_true]
+            congr 1
+            split <;> omega
+          · have := ih h x (by simpa [List.getD_eq_getElem?_getD, List.getElem?_set_ne hne] using hx)
+            rw [this, hw, if_neg hne]; simp
+        · simp at h
+      split at h
+      · next hp => exact key _ (by simp [hp]) h
+      · next hp => exact key _ (by simp [hp]; omega) h
+
+theorem gainOf_set (g : Graph) (p : List Nat) (v u : Nat) (hv : v < p.length) (huv : u ≠ v)
+    (hle : ∀ i ∈ p, i ≤ 1) :
+    gainOf g (p.set v (1 - partOf p v)) u =
+      gainOf g p u + (if partOf p u = partOf p v then 2 else -2) * wtRow (rowOf g u) v := by
+  unfold gainOf wtRow
+  generalize rowOf g u = row
+  have hu := partOf_le_one hle u
+  have hvv := partOf_le_one hle v
+  rw [partOf_set p v _ u hv, if_neg huv]
+  induction row with
+  | nil => simp
+  | cons e row ih =>
+    simp only [List.map_cons, List.sum_cons]
+    rw [ih, partOf_set p v _ e.1 hv]
+    have he := partOf_le_one hle e.1
+    by_cases hev : e.1 = v
+    · simp only [hev, if_true]
+      rcases (by omega : partOf p u = 0 ∨ partOf p u = 1) with a | a <;>
+      rcases (by omega : partOf p v = 0 ∨ partOf p v = 1) with b | b <;>
+      simp [a, b] <;> omega
+    · simp only [hev, if_false]
+      split <;> split <;> omega
+
 end Coupe.Fm
